@@ -5,8 +5,10 @@ package main
 
 import (
 	"fmt"
+	"go/constant"
+	"go/token"
+	"go/types"
 	"regexp"
-	"strconv"
 	"strings"
 
 	"golang.org/x/tools/go/ssa"
@@ -23,6 +25,7 @@ func pathsTo(from, to *ssa.BasicBlock, limit int) ([]pathInfo, bool) {
 	complete := true
 	onPath := map[*ssa.BasicBlock]bool{}
 	facts := map[string]bool{}
+	var path []*ssa.BasicBlock
 	var walk func(b, prev *ssa.BasicBlock)
 	walk = func(b, prev *ssa.BasicBlock) {
 		if len(out) >= limit {
@@ -41,10 +44,17 @@ func pathsTo(from, to *ssa.BasicBlock, limit int) ([]pathInfo, bool) {
 			return
 		}
 		onPath[b] = true
-		defer delete(onPath, b)
-		if g, ok := edgeFactCond(b); ok {
+		path = append(path, b)
+		defer func() { delete(onPath, b); path = path[:len(path)-1] }()
+		if g, ok := edgeFactCondOnPath(b, path); ok {
 			for i, s := range b.Succs {
 				truth := (i == 0) == g.pos
+				if g.fixed {
+					if g.val == truth {
+						walk(s, b)
+					}
+					continue
+				}
 				if old, had := facts[g.key]; had {
 					if old != truth {
 						continue
@@ -66,9 +76,41 @@ func pathsTo(from, to *ssa.BasicBlock, limit int) ([]pathInfo, bool) {
 	return out, complete
 }
 
+// condOf remembers one SSA value per canonical condition string, so that facts can be folded for a given arity class.
+var condOf = map[string]ssa.Value{}
+
 type condKey struct {
-	key string
-	pos bool // true: succ[0] means key is true
+	key   string
+	pos   bool // true: succ[0] means key is true
+	fixed bool // the condition is a constant on this path (a phi of `a && b` entered through the short-circuit edge)
+	val   bool
+}
+
+// edgeFactCondOnPath is edgeFactCond with a phi condition resolved along the path walked so far.
+func edgeFactCondOnPath(b *ssa.BasicBlock, path []*ssa.BasicBlock) (condKey, bool) {
+	ifi, ok := b.Instrs[len(b.Instrs)-1].(*ssa.If)
+	if !ok || len(b.Succs) != 2 {
+		return condKey{}, false
+	}
+	cond, pos := ifi.Cond, true
+	for i := 0; i < 8; i++ {
+		if u, ok := cond.(*ssa.UnOp); ok && u.Op.String() == "!" {
+			cond, pos = u.X, !pos
+			continue
+		}
+		if _, isPhi := cond.(*ssa.Phi); isPhi {
+			if v := valueOnPath(cond, path); v != cond {
+				cond = v
+				continue
+			}
+		}
+		break
+	}
+	if k, isK := cond.(*ssa.Const); isK && k.Value != nil && (k.Value.String() == "true" || k.Value.String() == "false") {
+		return condKey{fixed: true, val: k.Value.String() == "true", pos: pos}, true
+	}
+	condOf[expr(cond)] = cond
+	return condKey{key: expr(cond), pos: pos}, true
 }
 
 func edgeFactCond(b *ssa.BasicBlock) (condKey, bool) {
@@ -84,7 +126,8 @@ func edgeFactCond(b *ssa.BasicBlock) (condKey, bool) {
 		}
 		cond, pos = u.X, !pos
 	}
-	return condKey{expr(cond), pos}, true
+	condOf[expr(cond)] = cond
+	return condKey{key: expr(cond), pos: pos}, true
 }
 
 type acceptCase struct {
@@ -158,6 +201,7 @@ func (c *Ctx) acceptCases(ca *ssa.Function) ([]acceptCase, bool) {
 							}
 						} else {
 							f2[expr(val)] = want
+							condOf[expr(val)] = val
 						}
 						for _, base := range cases {
 							m := map[string]bool{}
@@ -185,20 +229,90 @@ func (c *Ctx) acceptCases(ca *ssa.Function) ([]acceptCase, bool) {
 
 var classRe = regexp.MustCompile(`== (-?\d+)\)$`)
 
-// arityFacts groups the accept cases by arity class.
+// arityClasses groups the accept cases by arity class. A case belongs to class K when every condition on its path
+// that compares the looked-up arity value with a constant holds for K (constant folding: `nargs == K`, a `switch
+// nargs` case list, or a range test such as `nargs >= Nargsz && nargs <= Nargs3` all work).
 func (c *Ctx) arityClasses(ca *ssa.Function) (map[int64][]acceptCase, []acceptCase, bool) {
 	cases, complete := c.acceptCases(ca)
 	byClass := map[int64][]acceptCase{}
 	var unclassified []acceptCase
+	// the classes: the constants of type codec.NArgs
+	var classes []int64
+	if tp := c.P.typesPkg(pkgCodec); tp != nil {
+		for _, name := range tp.Scope().Names() {
+			if k, ok := tp.Scope().Lookup(name).(*types.Const); ok {
+				if n, isN := k.Type().(*types.Named); isN && n.Obj().Name() == "NArgs" {
+					if v, exact := constant.Int64Val(k.Val()); exact {
+						classes = append(classes, v)
+					}
+				}
+			}
+		}
+	}
+	isArity := func(v ssa.Value) bool {
+		v = strip(v)
+		if cv, ok := v.(*ssa.Convert); ok {
+			v = strip(cv.X)
+		}
+		return strings.Contains(expr(v), "CommandType2ArgsNumber") && !strings.Contains(expr(v), "#1")
+	}
+	fold := func(cond ssa.Value, k int64) (val, decided bool) {
+		bo, ok := cond.(*ssa.BinOp)
+		if !ok {
+			return false, false
+		}
+		var other ssa.Value
+		flip := false
+		switch {
+		case isArity(bo.X):
+			other = bo.Y
+		case isArity(bo.Y):
+			other, flip = bo.X, true
+		default:
+			return false, false
+		}
+		kc, isK := constInt(other)
+		if !isK {
+			return false, false
+		}
+		a, b := k, kc
+		if flip {
+			a, b = kc, k
+		}
+		switch bo.Op {
+		case token.EQL:
+			return a == b, true
+		case token.NEQ:
+			return a != b, true
+		case token.LSS:
+			return a < b, true
+		case token.LEQ:
+			return a <= b, true
+		case token.GTR:
+			return a > b, true
+		case token.GEQ:
+			return a >= b, true
+		}
+		return false, false
+	}
 	for _, ac := range cases {
 		found := false
-		for k, v := range ac.facts {
-			if !v || !strings.Contains(k, "CommandType2ArgsNumber") {
-				continue
+		for _, k := range classes {
+			consistent, constrained := true, false
+			for key, truth := range ac.facts {
+				cond, ok := condOf[key]
+				if !ok {
+					continue
+				}
+				if v, decided := fold(cond, k); decided {
+					constrained = true
+					if v != truth {
+						consistent = false
+					}
+				}
 			}
-			if m := classRe.FindStringSubmatch(k); m != nil {
-				n, _ := strconv.ParseInt(m[1], 10, 64)
-				byClass[n] = append(byClass[n], ac)
+			if consistent && constrained {
+				byClass[k] = append(byClass[k], ac)
 				found = true
 			}
 		}
